@@ -4,6 +4,7 @@ import (
 	"fmt"
 	"sort"
 	"strings"
+	"unicode/utf8"
 )
 
 // Privilege numbers of the Hotline access bitmap (bit i counted from the most significant
@@ -132,16 +133,22 @@ func (a Access) SubsetOf(b Access) bool {
 func yamlQuote(s string) string {
 	var sb strings.Builder
 	sb.WriteByte('"')
-	for _, c := range []byte(s) {
+	for i := 0; i < len(s); {
+		r, n := utf8.DecodeRuneInString(s[i:])
+		c := s[i]
 		switch {
 		case c == '"' || c == '\\':
 			sb.WriteByte('\\')
 			sb.WriteByte(c)
-		case c < 0x20 || c >= 0x7f:
+		case r == utf8.RuneError && n == 1, c < 0x20, c == 0x7f:
+			// (a \xNN escape names the code point NN, not the byte: only right below 0x80; bytes that are not UTF-8
+			// have no spelling in a YAML string and are not used by any scenario)
 			fmt.Fprintf(&sb, "\\x%02x", c)
+			n = 1
 		default:
-			sb.WriteByte(c)
+			sb.WriteString(s[i : i+n]) // characters outside ASCII are written as they are
 		}
+		i += n
 	}
 	sb.WriteByte('"')
 	return sb.String()
